@@ -97,6 +97,7 @@ def run(case, W):
     # result-code units with the step of their first and last byte
     pos = 0
     res = []
+    ev_units_done = []
     step_of = [w.step for w in t.writes]
     for kind, payload, nl in units:
         start = pos
@@ -104,6 +105,8 @@ def run(case, W):
         pos += len(payload) + len(nl)
         if kind == "unit" and payload in (b"OK", b"ERROR"):
             res.append((payload, step_of[start], step_of[pos - 1]))
+        if payload.startswith(b"#"):
+            ev_units_done.append(step_of[pos - 1])      # step in which an event unit was completed
     lines, tail = ref.split_lines(s["input"])
     nonblank = [i for i, l in enumerate(lines) if not ref.is_blank(l)]
     if len(res) != len(nonblank):
@@ -143,6 +146,12 @@ def run(case, W):
         if trig_in:
             if stall_released and rel - 1 < len(qv.pending_by_step) and qv.pending_by_step[rel - 1] != 0:
                 return Result(violation=("event-not-delivered-during-hold", "hold [%d,%d] was released on stall but %d events were still undelivered" % (start, rel, qv.pending_by_step[rel - 1])))
+            if stall_released:
+                # positive evidence (the queue model above tolerates events that are processed without a trace): every event
+                # accepted during this hold shows up before the release - #E by its unit, #X by its handler invocation
+                seen = sum(1 for x in ev_units_done if start <= x <= rel) + sum(1 for h in t.handlers if h.fsm == "u" and h.ci == 3 and start <= h.step <= rel)
+                if seen < len(trig_in):
+                    return Result(violation=("event-not-delivered-during-hold", "hold [%d,%d] was released on stall after %d events had been accepted during it, but only %d event units / handler invocations were seen before the release" % (start, rel, len(trig_in), seen)))
             if stall_released:
                 delivered_during = True
     # cat_is_hold samples and queries; cat_hold_exit results
